@@ -45,6 +45,7 @@ structure Case where
   funcs : List FuncDef := []
   fbs : List FbDef := []
   insts : List (String × String) := []
+  aggs : List (String × AggDecl) := []
   xbody : Option XBlock := none
   verdict : Option String := none     -- impl answer to `check`
   steps : List Step := []             -- reversed while reading
@@ -58,7 +59,7 @@ def Case.program (c : Case) : Option Program :=
   c.body.map fun b => { decls := c.decls, body := b }
 
 def Case.xprogram (c : Case) : Option XProgram :=
-  c.xbody.map fun b => { funcs := c.funcs, fbs := c.fbs, insts := c.insts, decls := c.decls, body := b }
+  c.xbody.map fun b => { funcs := c.funcs, fbs := c.fbs, insts := c.insts, aggs := c.aggs, decls := c.decls, body := b }
 
 def applySetsX (rs : XRunState) (sets : List (String × Val)) : XRunState :=
   sets.foldl (fun rs (x, v) => { rs with store := { rs.store with vars := insert x v rs.store.vars } }) rs
@@ -71,7 +72,12 @@ def runModelX (p : XProgram) (steps : List Step) : List (CycleOut × Env × Nat)
       let (rs', o) := xcycle p fuel (applySetsX rs s.sets)
       -- the dump: the PROGRAM's variables, then every FB instance's variables as `inst.var`
       let flat : Env := rs'.store.insts.flatMap fun (c, e) => e.map fun (x, v) => (c ++ "." ++ x, v)
-      (o, rs'.store.vars ++ flat, rs'.store.frames.length) :: go rs' rest
+      -- stage S3: elements as `a[i]`, fields as `s.f`
+      let flatA : Env := rs'.store.aggs.flatMap fun (a, g) =>
+        match g with
+        | .arr lo _ elems => elems.zipIdx.map fun ((v, j) : Val × Nat) => (s!"{a}[{lo + Int.ofNat j}]", v)
+        | .str fields => fields.map fun (f, v) => (a ++ "." ++ f, v)
+      (o, rs'.store.vars ++ flatA ++ flat, rs'.store.frames.length) :: go rs' rest
   go { store := p.initStore } steps
 
 def readLine (c : Case) (line : String) : Case :=
@@ -94,8 +100,16 @@ def readLine (c : Case) (line : String) : Case :=
     | some f => { c with fbs := c.fbs ++ [f] }
     | none => { c with bad := true }
   | ["inst", v, t] => { c with insts := c.insts ++ [(v, t)] }
+  | "arr" :: rest =>
+    match parseAgg? ("arr" :: rest) with
+    | some a => { c with aggs := c.aggs ++ [a] }
+    | none => { c with bad := true }
+  | "svar" :: rest =>
+    match parseAgg? ("svar" :: rest) with
+    | some a => { c with aggs := c.aggs ++ [a] }
+    | none => { c with bad := true }
   | "body" :: toks =>
-    if c.funcs.isEmpty && c.fbs.isEmpty then
+    if c.funcs.isEmpty && c.fbs.isEmpty && c.aggs.isEmpty then
       match parseBlock? toks with
       | some b => { c with body := some b }
       | none => { c with bad := true }
@@ -301,6 +315,10 @@ def oraclePassX (c : Case) (p : XProgram) : String :=
   let c01 := firstNotOk (c01go false impl model)
   -- declared types: the PROGRAM's variables and, per FB instance, the FB's parameters and VARs
   let ctx : Ctx := (p.decls.map fun d => (d.name, d.ty)) ++
+    (p.aggs.flatMap fun (a, d) =>
+      match d with
+      | .arr lo hi t => (List.range (hi - lo + 1).toNat).map fun (j : Nat) => (s!"{a}[{lo + Int.ofNat j}]", t)
+      | .str _ fields => fields.map fun (f, t) => (a ++ "." ++ f, t)) ++
     p.insts.flatMap fun (c, t) =>
       match findFb p.fbs t with
       | none => []
